@@ -24,6 +24,7 @@ import (
 	"path/filepath"
 	"strings"
 	"sync"
+	"syscall"
 	"time"
 
 	"github.com/fasthttp/websocket"
@@ -58,15 +59,19 @@ type wsmsg struct {
 }
 
 type c12Case struct {
-	ID        int      `json:"id"`
-	Op        string   `json:"op"`
-	T         string   `json:"t"`
-	Items     []item   `json:"items"`
-	Parallel  bool     `json:"parallel"`
-	Fresh     bool     `json:"fresh"`
-	Pool      bool     `json:"pool"` // server with a (small, slow) worker pool: Handler.Pool != nil
-	Max       int      `json:"max"`  // Service.MaxRequestLength of the server (0: the executor's default)
-	N         int      `json:"n"`
+	ID       int    `json:"id"`
+	Op       string `json:"op"`
+	T        string `json:"t"`
+	Items    []item `json:"items"`
+	Parallel bool   `json:"parallel"`
+	Fresh    bool   `json:"fresh"`
+	Pool     bool   `json:"pool"` // server with a (small, slow) worker pool: Handler.Pool != nil
+	Max      int    `json:"max"`  // Service.MaxRequestLength of the server (0: the executor's default)
+	N        int    `json:"n"`
+	// abandoned calls
+	Size      int      `json:"size"` // request size
+	How       string   `json:"how"`  // cancel | timeout | abort
+	Hold      string   `json:"hold"` // peer: the peer stops reading after a warm-up call; dial: the connect is held
 	Wire      bool     `json:"wire"`
 	TimeoutMs int      `json:"timeout_ms"`
 	Data      []string `json:"data"`
@@ -130,6 +135,9 @@ type c12Obs struct {
 	S2CHdrs   string    `json:"s2c_hdrs,omitempty"`
 	DelivN    int       `json:"delivered_n,omitempty"`
 	DelivSha  string    `json:"delivered_sha1,omitempty"`
+	Submitted []string  `json:"submitted,omitempty"`
+	Pending   *bool     `json:"pending_when_ended,omitempty"`
+	Returned  *bool     `json:"returned_before_release,omitempty"`
 	Note      string    `json:"note,omitempty"`
 }
 
@@ -217,6 +225,23 @@ func (s *srv) waitDeliveries(n int, max time.Duration) {
 			return
 		}
 		time.Sleep(time.Millisecond)
+	}
+}
+
+// waitStable: the number of handler invocations has not changed for d (or max has elapsed)
+func (s *srv) waitStable(d, max time.Duration) {
+	deadline := time.Now().Add(max)
+	last, since := -1, time.Now()
+	for time.Now().Before(deadline) {
+		s.mu.Lock()
+		k := len(s.log)
+		s.mu.Unlock()
+		if k != last {
+			last, since = k, time.Now()
+		} else if time.Since(since) >= d {
+			return
+		}
+		time.Sleep(5 * time.Millisecond)
 	}
 }
 
@@ -538,6 +563,295 @@ func newUDPRelay(upstream string) (*udpRelay, error) {
 		}
 	}()
 	return r, nil
+}
+
+// gatedRelay: a byte relay in front of a real server whose client->server direction can be
+// stopped (the peer "stops reading": the client's writes fill the socket buffers and block) and
+// released again.  The accepting socket gets a small receive buffer so that little is absorbed.
+type gatedRelay struct {
+	ln     net.Listener
+	mu     sync.Mutex
+	open   bool
+	budget int64 // bytes still let through while closed (so that "writing has started" is visible)
+	cond   *sync.Cond
+	pumped int64
+	last   time.Time
+}
+
+func newGatedRelay(network, upstream, listenAddr string) (*gatedRelay, error) {
+	lc := net.ListenConfig{Control: func(nw, addr string, rc syscall.RawConn) error {
+		return rc.Control(func(fd uintptr) {
+			syscall.SetsockoptInt(int(fd), syscall.SOL_SOCKET, syscall.SO_RCVBUF, 4096)
+		})
+	}}
+	ln, err := lc.Listen(context.Background(), network, listenAddr)
+	if err != nil {
+		return nil, err
+	}
+	r := &gatedRelay{ln: ln, open: true, last: time.Now()}
+	r.cond = sync.NewCond(&r.mu)
+	go func() {
+		for {
+			c, err := ln.Accept()
+			if err != nil {
+				return
+			}
+			u, err := net.Dial(network, upstream)
+			if err != nil {
+				c.Close()
+				continue
+			}
+			go func() { // server -> client: never held
+				io.Copy(c, u)
+				c.Close()
+				u.Close()
+			}()
+			go func() { // client -> server: through the gate
+				buf := make([]byte, 32<<10)
+				for {
+					r.mu.Lock()
+					for !r.open && r.budget <= 0 {
+						r.cond.Wait()
+					}
+					r.mu.Unlock()
+					n, err := c.Read(buf)
+					if n > 0 {
+						r.mu.Lock()
+						if !r.open {
+							r.budget -= int64(n)
+						}
+						r.pumped += int64(n)
+						r.last = time.Now()
+						r.mu.Unlock()
+						if _, werr := u.Write(buf[:n]); werr != nil {
+							break
+						}
+					}
+					if err != nil {
+						break
+					}
+				}
+				if tc, ok := u.(*net.TCPConn); ok {
+					tc.CloseWrite()
+				} else if uc, ok := u.(*net.UnixConn); ok {
+					uc.CloseWrite()
+				}
+			}()
+		}
+	}()
+	return r, nil
+}
+
+func (r *gatedRelay) relayed() int64 {
+	r.mu.Lock()
+	defer r.mu.Unlock()
+	return r.pumped
+}
+
+func (r *gatedRelay) setOpen(v bool) {
+	r.mu.Lock()
+	r.open = v
+	if !v {
+		r.budget = 64 << 10
+	}
+	r.last = time.Now()
+	r.mu.Unlock()
+	r.cond.Broadcast()
+}
+
+// quiet: nothing has passed for d (or max has elapsed)
+func (r *gatedRelay) waitQuiet(d, max time.Duration) {
+	deadline := time.Now().Add(max)
+	for time.Now().Before(deadline) {
+		r.mu.Lock()
+		idle := time.Since(r.last)
+		r.mu.Unlock()
+		if idle >= d {
+			return
+		}
+		time.Sleep(5 * time.Millisecond)
+	}
+}
+
+// An abandoned call: the call's context ends (cancel / timeout / Abort) while its request is
+// still queued or being written; the caller - a client IO plugin that sends every request from
+// one scratch buffer - then reuses that buffer; then the peer is released.  Reported: what was
+// submitted, how the call ended, and everything the service was handed.
+func opAbandoned(c *c12Case, o *c12Obs) {
+	s, err := getServer(c.T, c.Pool, c.Max)
+	if err != nil {
+		o.Env = err.Error()
+		return
+	}
+	s.drain()
+	network, laddr, scheme := "tcp", "127.0.0.1:0", c.T
+	switch c.T {
+	case "unix":
+		network, laddr = "unix", filepath.Join(tmpDir, fmt.Sprintf("gate-%d.sock", c.ID))
+	case "fasthttp":
+		scheme = "http"
+	}
+	relay, err := newGatedRelay(network, s.addr, laddr)
+	if err != nil {
+		o.Env = err.Error()
+		return
+	}
+	defer relay.ln.Close()
+	url := scheme + "://" + relay.ln.Addr().String() + "/"
+	if c.T == "unix" {
+		url = "unix://" + laddr
+	}
+	if c.T == "fasthttp" {
+		useFastHTTPClient()
+		defer useNetHTTPClient()
+	}
+	client := rpc.NewClient(url)
+	defer client.Abort()
+	client.Timeout = 0
+	if c.How == "timeout" {
+		client.Timeout = 300 * time.Millisecond
+	}
+	var pmu sync.Mutex
+	scratch := make([]byte, 0, c.Size+64)
+	client.Use(core.IOHandler(func(ctx context.Context, request []byte, next core.NextIOHandler) ([]byte, error) {
+		buf := append(scratch[:0], request...)
+		pmu.Lock()
+		o.Submitted = append(o.Submitted, enc(buf))
+		pmu.Unlock()
+		response, err := next(ctx, buf)
+		// the call is over: the buffer is the plugin's again
+		for i := range buf {
+			buf[i] = 'X'
+		}
+		return response, err
+	}))
+	call := func(ctx context.Context, req []byte) ([]byte, error) {
+		cc := core.NewClientContext()
+		cc.Init(client)
+		return client.Request(core.WithContext(ctx, cc), req)
+	}
+	dialing := make(chan bool, 8)
+	dialGate := make(chan bool)
+	if c.Hold == "dial" {
+		switch c.T {
+		case "fasthttp":
+			rpc.FastHTTPTransport(client).FastHTTPClient.Dial = func(addr string) (net.Conn, error) {
+				dialing <- true
+				<-dialGate
+				return net.Dial("tcp", addr)
+			}
+		case "http":
+			rpc.HTTPTransport(client).HTTPClient.Transport.(*http.Transport).DialContext =
+				func(ctx context.Context, nw, addr string) (net.Conn, error) {
+					dialing <- true
+					select {
+					case <-dialGate:
+					case <-ctx.Done():
+						return nil, ctx.Err()
+					}
+					return net.Dial(nw, addr)
+				}
+		default:
+			o.Env = "hold=dial is for http and fasthttp"
+			return
+		}
+	} else {
+		// the connection comes up (handshakes included) with a small call, then the peer stops reading
+		warm := []byte("warm-up")
+		client.Timeout = 5 * time.Second
+		resp, err := call(context.Background(), warm)
+		if err != nil || !bytes.Equal(resp, append([]byte("r:"), warm...)) {
+			o.Env = fmt.Sprintf("warm-up call failed: %v", err)
+			return
+		}
+		client.Timeout = 0
+		if c.How == "timeout" {
+			client.Timeout = 300 * time.Millisecond
+		}
+		relay.setOpen(false)
+	}
+	req := make([]byte, c.Size)
+	for i := range req {
+		req[i] = byte('a' + i%23)
+	}
+	copy(req, []byte(fmt.Sprintf("abandoned-%d/", c.ID)))
+	ctx, cancel := context.WithCancel(context.Background())
+	defer cancel()
+	done := make(chan callObs, 1)
+	go func() {
+		t0 := time.Now()
+		resp, err := call(ctx, req)
+		co := callObs{Ms: time.Since(t0).Milliseconds()}
+		if err != nil {
+			co.Err = err.Error()
+		} else {
+			co.Resp = enc(resp)
+		}
+		done <- co
+	}()
+	if c.Hold == "dial" {
+		select {
+		case <-dialing:
+		case <-time.After(3 * time.Second):
+			o.Note = "the client never started to connect"
+		}
+	} else {
+		// wait until the request is visibly being written (the relay lets 64 KiB through), then
+		// a little longer so that the writer sits in a blocked Write
+		base := relay.relayed()
+		for t0 := time.Now(); relay.relayed() < base+(64<<10) && time.Since(t0) < 3*time.Second; {
+			time.Sleep(2 * time.Millisecond)
+		}
+		if relay.relayed() < base+(64<<10) {
+			o.Note = "the request never started to flow"
+		}
+		time.Sleep(40 * time.Millisecond)
+	}
+	pending, returned := true, false
+	var co callObs
+	select {
+	case co = <-done:
+		pending = false // the whole request went into the buffers: nothing was abandoned
+		returned = true
+	default:
+	}
+	if pending {
+		switch c.How {
+		case "cancel":
+			cancel()
+		case "abort":
+			client.Abort()
+		}
+		select {
+		case co = <-done:
+			returned = true
+		case <-time.After(3 * time.Second):
+		}
+	}
+	o.Pending, o.Returned = &pending, &returned
+	// (the plugin has overwritten its buffer by now if the call returned)
+	relay.setOpen(true)
+	if c.Hold == "dial" {
+		close(dialGate)
+	}
+	if !returned {
+		select {
+		case co = <-done:
+		case <-time.After(5 * time.Second):
+			co = callObs{Err: "the call never returned"}
+		}
+	}
+	o.Calls = []callObs{co}
+	time.Sleep(50 * time.Millisecond)
+	relay.waitQuiet(150*time.Millisecond, 6*time.Second)
+	s.waitStable(250*time.Millisecond, 4*time.Second)
+	h := s.health()
+	o.Healthy = &h
+	time.Sleep(30 * time.Millisecond)
+	o.Delivered = s.drain()
+	relay.mu.Lock()
+	o.Note += fmt.Sprintf(" relayed=%d", relay.pumped)
+	relay.mu.Unlock()
 }
 
 // ---------------------------------------------------------------- ops
@@ -1284,6 +1598,8 @@ func c12Run(line []byte, out *json.Encoder) error {
 		opRawHTTP(&c, &o)
 	case "udp_index_run":
 		opIndexRun(&c, &o)
+	case "abandoned":
+		opAbandoned(&c, &o)
 	case "fake_stream":
 		opFakeStream(&c, &o)
 	case "fake_udp":
